@@ -203,16 +203,58 @@ theorem layers_unbatched (guard : Bool) (op : Op) (s k : Nat) (src : List (Ev Va
             simp only [if_true] at this
             simp [Impl.annot, Impl.aMap, Impl.callLayer, Impl.dropIgnorable, innerEvs, this, hg, h1, hc, normalizeOutputs_eq]
 
+/-- the events of an un-batched, un-guarded `_iterate` behind `processed_with_inputs`: over the source
+seen through the `iter_ignore_error` wrapper (`Impl.annotSkip skip`) — a skippable failing read of the
+source is not an event of this iterator, a failing call is -/
+def innerEvsT (skip : Bool) (op : Op) : Nat → Nat → List (Ev Val) → List (Impl.AEv (List Val))
+  | _, _, [] => []
+  | s, k, .error e :: rest =>
+    if skip && e.ignorable then innerEvsT skip op s (k + 1) rest
+    else ⟨.error e, k + 1⟩ :: innerEvsT skip op s (k + 1) rest
+  | s, k, .ok r :: rest =>
+    match inner1 op s r with
+    | (.ok outs, s') => ⟨.ok outs, k + 1⟩ :: innerEvsT skip op s' (k + 1) rest
+    | (.error e, s') => ⟨.error e, k + 1⟩ :: innerEvsT skip op s' (k + 1) rest
+
+theorem layers_unbatchedT (skip : Bool) (op : Op) (s k : Nat) (src : List (Ev Val)) :
+    Impl.aMap (fun v => liftErr (normalizeOutputs op v))
+      (Impl.callLayer op s (Impl.aMap (fun r => liftErr (getInputs op r)) (Impl.annotSkip skip k src)))
+    = innerEvsT skip op s k src := by
+  simp only [normalizeOutputs_eq, liftErr_ok]
+  induction src generalizing s k with
+  | nil => simp [Impl.annotSkip, Impl.aMap, Impl.callLayer, innerEvsT]
+  | cons ev rest ih =>
+    cases ev with
+    | error e =>
+      by_cases hi : (skip && e.ignorable) = true
+      · simp [Impl.annotSkip, innerEvsT, hi, ih]
+      · simp [Impl.annotSkip, Impl.aMap, Impl.callLayer, innerEvsT, hi, ih]
+    | ok r =>
+      cases hg : getInputs op r with
+      | error kd =>
+        have h1 : inner1 op s r = (.error { kind := kd }, s) := by simp [inner1, Ref.semCall, hg]
+        simp [Impl.annotSkip, Impl.aMap, Impl.callLayer, innerEvsT, ih, hg, h1]
+      | ok ins =>
+        rcases hc : callFn op s ins with ⟨res, s'⟩
+        cases res with
+        | error e =>
+          have h1 : inner1 op s r = (.error e, s') := by simp [inner1, Ref.semCall, hg, hc]
+          simp [Impl.annotSkip, Impl.aMap, Impl.callLayer, innerEvsT, ih, hg, h1, hc]
+        | ok v =>
+          have h1 : inner1 op s r = (.ok (normOuts op v), s') := by simp [inner1, Ref.semCall, hg, hc]
+          simp [Impl.annotSkip, Impl.aMap, Impl.callLayer, innerEvsT, ih, hg, h1, hc, normalizeOutputs_eq]
+
 /-! ## `processed_with_inputs`: the `_TeeIterator` FIFO stays aligned for a 1:1 `process_fn` -/
 
 /-- what `processed_with_inputs` must deliver for an un-batched operator: every output next to the
 record it was computed from; a record whose processing raised a skippable error is left out when
-`skip` is on.  (First clause with `skip`: a skippable error of the *source* finds the FIFO empty —
-`IndexError('No element left')`, finding F-C12-passed-on.) -/
+`skip` is on — and so is a skippable failing read of the *source* (the repaired code, finding
+F-C12-passed-on; the unrepaired code ended here with `IndexError('No element left')`: the `_SKIP`
+marker found the FIFO empty). -/
 def paired (skip : Bool) (op : Op) : Nat → Nat → List (Ev Val) → List (Impl.AEv (List Val × Val))
   | _, _, [] => []
-  | _, k, .error e :: _ =>
-    if skip && e.ignorable then [⟨.error { kind := .index }, k + 1⟩] else [⟨.error e, k + 1⟩]
+  | s, k, .error e :: rest =>
+    if skip && e.ignorable then paired skip op s (k + 1) rest else [⟨.error e, k + 1⟩]
   | s, k, .ok r :: rest =>
     match inner1 op s r with
     | (.ok outs, s') => ⟨.ok (outs, r), k + 1⟩ :: paired skip op s' (k + 1) rest
@@ -220,10 +262,10 @@ def paired (skip : Bool) (op : Op) : Nat → Nat → List (Ev Val) → List (Imp
       if skip && e.ignorable then paired skip op s' (k + 1) rest else [⟨.error e, k + 1⟩]
 
 theorem pwi_aligned (skip : Bool) (op : Op) (s : Nat) (pre suf : List (Ev Val)) :
-    Impl.pwi skip (pre ++ suf) (Impl.countOk pre) (innerEvs false op s pre.length suf)
+    Impl.pwi skip (pre ++ suf) (Impl.countOk pre) (innerEvsT skip op s pre.length suf)
       = paired skip op s pre.length suf := by
   induction suf generalizing pre s with
-  | nil => simp [innerEvs, Impl.pwi, paired]
+  | nil => simp [innerEvsT, Impl.pwi, paired]
   | cons ev rest ih =>
     have htake : (pre ++ ev :: rest).take (pre.length + 1) = pre ++ [ev] := take_append_succ pre ev rest
     have hlen : ¬ (pre.length + 1 > (pre ++ ev :: rest).length) := by simp
@@ -234,8 +276,10 @@ theorem pwi_aligned (skip : Bool) (op : Op) (s : Nat) (pre suf : List (Ev Val)) 
       have hc : Impl.countOk (pre ++ [Except.error e]) = Impl.countOk pre := by
         simp [countOk_append, Impl.countOk]
       by_cases hs : (skip && e.ignorable) = true
-      · simp [innerEvs, Impl.pwi, paired, hs, htake, hc, hlen]
-      · simp [innerEvs, Impl.pwi, paired, hs]
+      · have ih' := ih s (pre ++ [Except.error e])
+        rw [← hpre, hc, hl'] at ih'
+        simp [innerEvsT, paired, hs, ih']
+      · simp [innerEvsT, Impl.pwi, paired, hs]
     | ok r =>
       have hc : Impl.countOk (pre ++ [Except.ok r]) = Impl.countOk pre + 1 := by
         simp [countOk_append, Impl.countOk]
@@ -245,11 +289,11 @@ theorem pwi_aligned (skip : Bool) (op : Op) (s : Nat) (pre suf : List (Ev Val)) 
       rw [← hpre, hc, hl'] at ih'
       cases res with
       | ok outs =>
-        simp [innerEvs, Impl.pwi, paired, h1, htake, hc, oks_getElem_mid, ih']
+        simp [innerEvsT, Impl.pwi, paired, h1, htake, hc, oks_getElem_mid, ih']
       | error e =>
         by_cases hs : (skip && e.ignorable) = true
-        · simp [innerEvs, Impl.pwi, paired, h1, hs, htake, hc, ih']
-        · simp [innerEvs, Impl.pwi, paired, h1, hs]
+        · simp [innerEvsT, Impl.pwi, paired, h1, hs, htake, hc, ih']
+        · simp [innerEvsT, Impl.pwi, paired, h1, hs]
 
 /-! ## operator-level refinement (un-batched operators) -/
 
@@ -259,6 +303,13 @@ theorem iterate_unbatched (guard : Bool) (op : Op) (hb : op.fnBatch = 0 ∧ op.b
   unfold Impl.iterate Impl.maybeRebatch
   simp only [hb.1, hb.2, if_true]
   exact layers_unbatched guard op op.s0 k src
+
+theorem iterate_unbatchedT (skip : Bool) (op : Op) (hb : op.fnBatch = 0 ∧ op.batch = 0)
+    (k e : Nat) (src : List (Ev Val)) :
+    (Impl.iterate false op ⟨Impl.annotSkip skip k src, e⟩).evs = innerEvsT skip op op.s0 k src := by
+  unfold Impl.iterate Impl.maybeRebatch
+  simp only [hb.1, hb.2, if_true, Bool.false_eq_true, if_false]
+  exact layers_unbatchedT skip op op.s0 k src
 
 theorem clean_tail {ignore : Bool} {ev : Ev Val} {rest : List (Ev Val)}
     (h : Ref.Clean ignore (ev :: rest)) : Ref.Clean ignore rest :=
@@ -402,7 +453,7 @@ structure OpOK (op : Op) : Prop where
   pred : op.kind = .filter → NoTuple op
 
 theorem pwi_aligned0 (skip : Bool) (op : Op) (s : Nat) (src : List (Ev Val)) :
-    Impl.pwi skip src 0 (innerEvs false op s 0 src) = paired skip op s 0 src := by
+    Impl.pwi skip src 0 (innerEvsT skip op s 0 src) = paired skip op s 0 src := by
   have := pwi_aligned skip op s [] src
   simpa [Impl.countOk] using this
 
@@ -418,15 +469,15 @@ theorem opIterate_spec (ignore : Bool) (op : Op) (h : OpOK op) (src : List (Ev V
     simp only [iterate_unbatched _ op h.unbatched]
     exact apply_spec ignore op (Or.inr hk) h.selfAlone op.s0 0 src hc
   | assign =>
-    simp only [iterate_unbatched _ op h.unbatched, pwi_aligned0]
+    simp only [Impl.passedOnFixed, Bool.and_true, iterate_unbatchedT _ op h.unbatched, pwi_aligned0]
     refine paired_map_spec ignore op _ ?_ op.s0 0 src hc
     intro r v
     simp [Ref.semWrite, hk, getOutputs_normOuts op h.selfAlone]
   | filter =>
-    simp only [iterate_unbatched _ op h.unbatched, pwi_aligned0, Impl.f17Fixed, Bool.and_true]
+    simp only [Impl.passedOnFixed, Impl.f17Fixed, Bool.and_true, iterate_unbatchedT _ op h.unbatched, pwi_aligned0]
     exact filter_spec ignore op hk (h.pred hk) op.s0 0 src hc
   | sink =>
-    simp only [iterate_unbatched _ op h.unbatched, pwi_aligned0]
+    simp only [Impl.passedOnFixed, Bool.and_true, iterate_unbatchedT _ op h.unbatched, pwi_aligned0]
     refine paired_map_spec ignore op _ ?_ op.s0 0 src hc
     intro r v
     simp [Ref.semWrite, hk, Except.map]
